@@ -79,13 +79,13 @@ def uses_raw(prog):
 
 def fragment_programs(ctx):
     """programs inside the fragment of the end-to-end theorem C01_items_sound: every struct shape and enum representation,
-    rename / rename_all / rename_all_fields / tag / content / skip / per-variant untagged, library types over earlier items, no generics /
-    flatten / inline / optional / as / type"""
+    rename / rename_all / rename_all_fields / tag / content / skip / per-variant untagged / optional / optional_fields, generic items,
+    library types over earlier items; no flatten / inline / as / type"""
     rng = random.Random(ctx.seed * 19 + 6)
     g = gen_corpus.Gen(rng)
     RULES = gen_corpus.RULES
     progs = []
-    for i in range(6 if ctx.quick else 80):
+    for i in range(14 if ctx.quick else 80):
         items, pool = [], []
         for k in range(rng.choice([3, 4, 5, 6])):
             name = f"F{i}_{k}"
@@ -95,7 +95,7 @@ def fragment_programs(ctx):
             if rng.random() < 0.3: attrs["rename"] = f"Ren{i}_{k}"
             def fld(nm):
                 g.used_names = getattr(g, "used_names", set())
-                f = g.field(nm, g.ty(2, gpool), allow=("rename", "skip") if nm is not None else ("skip",))
+                f = g.field(nm, g.ty(2, gpool), allow=("rename", "skip", "optional") if nm is not None else ("skip",))
                 f["attrs"].pop("docs", None)
                 return f
             if rng.random() < 0.5:
@@ -106,6 +106,13 @@ def fragment_programs(ctx):
                     it["fields"] = [fld(nm) for nm in rng.sample([n for n in gen_corpus.FIELD_NAMES if n.replace("r#", "") not in ("tag", "$kind")], rng.choice([1, 2, 3, 4]))]
                     if rng.random() < 0.4: attrs["rename_all"] = rng.choice(RULES)
                     if rng.random() < 0.15: attrs["tag"] = rng.choice(["tag", "$kind"])
+                    if (rng.random() < 0.25 or (i + k) % 4 == 0) and not gens:
+                        # the container's `optional_fields`: every Option field becomes `name?:`, so serde has to leave out its `None`
+                        attrs["optional_fields"] = rng.choice(["optional", "nullable"])
+                        for f_ in it["fields"]:
+                            if f_["ty"]["k"] == "option" and not f_["attrs"].get("skip") and (attrs["optional_fields"] == "optional" or rng.random() < 0.5):
+                                f_["attrs"]["skip_ser_if_none"] = True
+                                f_["attrs"]["default"] = True
                 elif shape == "tuple":
                     it["shape"], it["fields"] = "tuple", [fld(None) for _ in range(rng.choice([2, 3]))]
                 elif shape == "newtype":
